@@ -19,6 +19,7 @@ import (
 	"strconv"
 	"strings"
 	"sync"
+	"sync/atomic"
 	"time"
 
 	"example.com/scion-time/core/client"
@@ -1110,6 +1111,25 @@ func c20QUIC(r *ev.Run) {
 	c.Auth.NTSKEFetcher.QUIC.LocalAddr = local
 	c.Auth.NTSKEFetcher.QUIC.RemoteAddr = remote
 	pth := snetpath.Path{Src: ia, Dst: ia, DataplanePath: snetpath.Empty{}, NextHop: remote.Host}
+	// a socket where the exchange says the NTP server is (same host, port 7777): in the client's own AS
+	// the datagram itself has to go there, not only the addresses in its SCION header
+	var atNamed atomic.Int64
+	named, nerr := net.ListenUDP("udp", &net.UDPAddr{IP: srvIP.AsSlice(), Port: 7777})
+	if nerr == nil {
+		defer named.Close()
+		go func() {
+			b := make([]byte, 2048)
+			for {
+				n, _, err := named.ReadFromUDP(b)
+				if err != nil {
+					return
+				}
+				if n > 0 {
+					atNamed.Add(1)
+				}
+			}
+		}()
+	}
 	for k := 0; k < 12; k++ {
 		ctx, cancel := context.WithTimeout(context.Background(), 400*time.Millisecond)
 		_ = c02Recover(func() {
@@ -1126,6 +1146,15 @@ func c20QUIC(r *ev.Run) {
 		r.Violation("scion-client|wrong-value:client with an empty cookie pool does not return to its key-exchange server (its address was overwritten with the NTP server named in the first exchange)", "quic-rekey", w)
 	} else {
 		r.Class("quic-rekey:client returns to the key-exchange server when its pool is empty")
+	}
+	switch {
+	case nerr != nil:
+		r.Class("quic-rekey:no socket at the named port (" + nerr.Error() + ")")
+	case after-before >= 1 && atNamed.Load() == 0:
+		w["datagrams_at_named_port"] = 0
+		r.Violation("scion-client|wrong-value:NTP request did not reach the server and port named in the exchange|server in the client's own AS", "quic-rekey", w)
+	default:
+		r.Class("quic-rekey:NTP requests arrive at the port named in the exchange")
 	}
 	if remote.Host.Port != port {
 		r.Violation("scion-client|state:the caller's address object was overwritten with the server and port named in the key exchange", "quic-rekey", w)
